@@ -243,6 +243,11 @@ class Sched:
             self._changes = sorted(policy['changes'])
             self._ci = 0
             self._dirty = True
+        elif self.kind == 'coldline':
+            # single pre-emption of thread 0 when it first reaches a given
+            # source location; every other thread then runs to completion
+            self._cold = (policy['file'], policy['line'])
+            self._cold_fired = False
         elif self.kind == 'explicit':
             self._sw = {}
             for tid, ls, nxt in policy['sw']:
@@ -367,6 +372,18 @@ class Sched:
         if self.step > self.step_budget:
             self.die('budget', 'step budget %d exceeded (bounded liveness)'
                      % self.step_budget)
+        if self.kind == 'coldline':
+            if tid == 0 and not self._cold_fired and \
+                    frame.f_lineno == self._cold[1] and \
+                    self.file_ids.get(frame.f_code.co_filename) == \
+                    self._cold[0]:
+                self._cold_fired = True
+                self.probe('coldline_preemption_fired')
+                others = self._runnable(exclude=0)
+                if others:
+                    self.switch(tid, others[self.rng.randrange(
+                        len(others))], 'pre', frame)
+            return
         nxt = self._choose_preempt(tid)
         if nxt != tid:
             self.switch(tid, nxt, 'pre', frame)
